@@ -3,6 +3,7 @@ from _cfg import *
 
 def check_case(rep, case, name):
     if case.get('kind') == 'nested': nested_cases(rep); return
+    if case.get('kind') == 'section-placeholders': section_placeholder_cases(rep); return
     rng = random.Random(case['seed'])
     kind = case['kind']
     if kind == 'pair':
@@ -57,12 +58,26 @@ def nested_cases(rep):
     if got != want: rep.dev('nested-placeholders', dict(kind='nested'), 'templated file tabulates differently', 'same bytes')
     else: rep.ok()
 
+def section_placeholder_cases(rep):
+    """${SECTION:KEY} placeholders in a file that defines no variable at all (no [Variables] section, or an empty one)"""
+    plain = '[Tabulation]\ntarget : LAMMPS\nnr : 12\ncutoff : 5.5\n\n[Species]\nGd.atomic_number : 64\nO.atomic_number : 8\n\n[Pair]\nGd-O : as.zbl 64 8\nO-O : as.buck 1388.77 0.3623 5.5\n'
+    body = '[Tabulation]\ntarget : LAMMPS\nnr : 12\ncutoff : 5.5\n\n[Species]\nGd.atomic_number : 64\nO.atomic_number : 8\n\n[Pair]\nGd-O : as.zbl ${Species:Gd.atomic_number} ${Species:O.atomic_number}\nO-O : as.buck 1388.77 0.3623 ${Tabulation:cutoff}\n'
+    for nm, templ in (('no-variables-section', body), ('empty-variables-section', '[Variables]\n\n' + body), ('one-unused-variable', '[Variables]\nunused : 1\n\n' + body)):
+        rep.case('section-placeholders', nm)
+        case = dict(kind='section-placeholders', name=nm)
+        try: want = tabulate_text(plain)
+        except Exception as e: rep.dev('section-placeholders-' + nm, case, 'plain file rejected %r' % (e,), 'accepted'); return
+        try: got = tabulate_text(templ)
+        except Exception as e: rep.dev('section-placeholders-' + nm, case, 'templated file: %s: %s' % (type(e).__name__, str(e)[:120]), 'same output as the hand-substituted file'); continue
+        if got != want: rep.dev('section-placeholders-' + nm, case, 'templated file tabulates differently', 'same bytes')
+        else: rep.ok()
+
 if __name__ == '__main__':
     pl = payload(); rep = Report('C15')
     if pl.get('mode') == 'replay': rep.case('replay', pl['input']); check_case(rep, pl['input'], 'replay')
     else:
         rng = random.Random(pl.get('seed', 0))
-        nested_cases(rep)
+        nested_cases(rep); section_placeholder_cases(rep)
         for i in range(pl.get('n', 40)):
             c = gen_case(rng); rep.case(c['kind'], c); check_case(rep, c, 'seeded-%d' % i)
     rep.finish()
